@@ -106,7 +106,7 @@ Proof.
     unfold call_step in H. brk2 H. all: inversion H; subst s'; fields; now apply nth_upd_neq.
   - assert (c <> w) by congruence.
     unfold cstep in H. destruct (nth_error (cl s) c) as [pc|] eqn:Hn; [|discriminate].
-    destruct pc as [|t wt|h| |f wt| | |]; try discriminate.
+    destruct pc as [|t wt|h| |f wt| | | |]; try discriminate.
     all: try (destruct f as [| |h|ok|ok]); cbn [fstep] in H; unfold callback in H;
       brk2 H; inversion H; subst s'; fields; now apply nth_upd_neq.
   - unfold bstep in H. destruct (nth_error (fl s) b) as [pc|] eqn:Hn; [|discriminate].
@@ -118,7 +118,7 @@ Proof.
 Qed.
 
 Lemma c_in_zero_hand p : c_in p = 0 -> chand_en p = [].
-Proof. destruct p as [| | | |[]| | |]; cbn; intros; try reflexivity; lia. Qed.
+Proof. destruct p as [| | | |[]| | | |]; cbn; intros; try reflexivity; lia. Qed.
 Lemma b_in_zero_hand p : b_in p = 0 -> bhand_en p = [].
 Proof. destruct p as [| | | | | | |[]| | |[]|]; cbn; intros; try reflexivity; lia. Qed.
 Lemma c_send_zero_hand p : c_send p = 0 -> chand_un p = [].
@@ -198,7 +198,7 @@ Proof.
   - (* the waiter's own action *)
     cbn [step] in Hs. unfold G in HG. unfold cstep in Hs.
     destruct (nth_error (cl s) w) as [p|] eqn:Hn; [|contradiction].
-    destruct p as [|t wt|h| |f wt| | |]; try contradiction.
+    destruct p as [|t wt|h| |f wt| | | |]; try contradiction.
     + discriminate.
     + destruct f as [| |h|ok|ok]; destruct wt; try contradiction; cbn [fstep] in Hs;
         unfold callback in Hs; brk2 Hs; inversion Hs; subst s'; clear Hs;
@@ -214,7 +214,7 @@ Proof.
   - (* somebody else's action *)
     unfold G in *. rewrite (step_other_pc _ _ _ _ w Hs Hne Hnc).
     destruct (nth_error (cl s) w) as [p|]; [|contradiction].
-    destruct p as [|t wt|h| |f wt| | |]; try contradiction; try lia.
+    destruct p as [|t wt|h| |f wt| | | |]; try contradiction; try lia.
     destruct f as [| |h|ok|ok]; destruct wt; try contradiction; try exact I; lia.
 Qed.
 
